@@ -96,12 +96,15 @@ TakeBranch(s, d) == LET f == Top(s) it == f.code[f.pc] IN Push(Bump(s), IF d THE
 EmptyEnv == [x \in {} |-> 0]
 Init == /\ tid \in 1..Len(Cases)
         /\ blk = "0" /\ idx = 1
-        /\ stk = Push(<<>>, CodeOf(tid))
         /\ env = EmptyEnv /\ rv = FALSE
-        /\ bad = IF Mode = "impl" /\ Generated(tid).fail THEN "refused" ELSE "ok"
-        /\ drift = IF Mode # "impl" THEN FALSE
-                   ELSE IF Cases[tid].refused THEN ~Generated(tid).fail
-                   ELSE (Generated(tid).fail \/ Generated(tid).code # Cases[tid].code)
+        /\ IF Mode = "impl"
+           THEN LET gen == Generated(tid) IN          \* evaluated once per case
+                /\ stk = Push(<<>>, gen.code)
+                /\ bad = IF gen.fail THEN "refused" ELSE "ok"
+                /\ drift = IF Cases[tid].refused THEN ~gen.fail ELSE (gen.fail \/ gen.code # Cases[tid].code)
+           ELSE /\ stk = Push(<<>>, Cases[tid].code)
+                /\ bad = "ok"
+                /\ drift = FALSE
 
 Stuck(why) == bad' = why /\ UNCHANGED <<tid, blk, idx, stk, env, rv, drift>>
 Next ==
